@@ -203,13 +203,27 @@ Inductive vres :=
 
 (* sha_crypt::sha{256,512}_check as called by verify_ctx (`.is_ok()`), including the
    `.unwrap()` on the hash-field decode inside decode_sha256 *)
+Definition is_h64 (b : bytes) : bool :=
+  forallb (fun c => match h64_val c with Some _ => true | None => false end) b.
+
 Inductive sha_prep :=
 | SCReject                                  (* the check returns Err: not accepted *)
 | SCPanic                                   (* decode_sha256(..).unwrap() panics *)
 | SCCompare (salt : bytes) (r : N) (d : bytes).
 
+(* false: the tree under check calls sha_crypt::sha256_check on any {crypt}$5$ string.
+   true : /verif/fixes/C30.patch is applied (verify_ctx first requires the last '$'-field to be
+          43 hash64 characters with a canonical last one, and answers Ok(false) otherwise). *)
+Definition tree_fixed : bool := false.
+
+Definition sha256_field_ok (hv : bytes) : bool :=
+  let f := last (split_on 36 hv) [] in
+  Nat.eqb (length f) 43 && is_h64 f &&
+  match h64_val (last f 0) with Some v => v <? 16 | None => false end.
+
 Definition sha_prepare (is512 : bool) (hv : bytes) : sha_prep :=
   let buflen := if is512 then 86%nat else 43%nat in
+  if tree_fixed && negb is512 && negb (sha256_field_ok hv) then SCReject else
   match split_on 36 hv with
   | [] :: id :: next :: rest =>
       if negb (beqb id (if is512 then [54] else [53])) then SCReject else
@@ -316,8 +330,6 @@ Inductive gen :=
 | GCryptSha (is512 : bool) (rounds : option N) (salt : bytes).
 
 Definition is_bytes (b : bytes) : bool := forallb (fun x => x <? 256) b.
-Definition is_h64 (b : bytes) : bool :=
-  forallb (fun c => match h64_val c with Some _ => true | None => false end) b.
 (* Django salts: ASCII letters and digits *)
 Definition is_alnum (b : bytes) : bool :=
   forallb (fun c => ((48 <=? c) && (c <=? 57)) || ((65 <=? c) && (c <=? 90)) || ((97 <=? c) && (c <=? 122))) b.
